@@ -1,6 +1,7 @@
 import Norad.Lemmas.C16
 import Norad.Lemmas.C16Stable
 import Norad.Lemmas.C16Save
+import Norad.Lemmas.C16List
 /-!
 # C16 — data and image stores keep their invariants and their bytes
 
@@ -93,6 +94,92 @@ theorem insert_refuses_both_directions (s : Store) (k : Key) (b : Bytes) (e : Ke
         rw [List.any_eq_true]
         exact ⟨parse e.1, hmem, by simp [hnotEmpty, hasKey_iff]; exact ⟨e.1, ⟨e.2, he⟩, rfl⟩⟩
       rw [h3] at this; exact absurd this (by simp)
+
+/-! ## stores listed from a directory tree (`Store::new`, `try_list_contents`) -/
+
+/-- **a loaded store satisfies the invariant**: for a well-formed listing (what `read_dir`, followed
+    through plain directories, enumerates — `ListingWF`), a store that `Store::new` returns satisfies
+    `Inv`, and all its cells are lazy.  Which entries the two walks reach and refuse is `listData` /
+    `listImages`; the visiting order is immaterial because the result is collected into a map. -/
+theorem newStore_inv (kind : Kind) (t : Listing) (s : Store) (hwf : ListingWF t)
+    (h : newStore kind t = .ok s) : Inv s ∧ ∀ e ∈ s.items, e.2 = .notLoaded := by
+  unfold newStore at h
+  cases kind with
+  | data =>
+    simp only [listData] at h
+    split at h
+    · simp at h
+    · rename_i ks hks
+      split at hks
+      · simp at hks
+      · injection hks with hks
+        injection h with h
+        subst h; subst hks
+        have hcells : ∀ e ∈ (List.map (fun k => (k, Cell.notLoaded))
+            (List.map (fun e => keyOfNames e.1) (List.filter (fun e => e.2 == NodeKind.file) t))),
+            e.2 = Cell.notLoaded := by
+          intro e he
+          obtain ⟨k, _, rfl⟩ := List.mem_map.1 he
+          rfl
+        refine ⟨⟨?_, ?_⟩, hcells⟩
+        · have : keys ⟨Kind.data, List.map (fun k => (k, Cell.notLoaded))
+              (List.map (fun e => keyOfNames e.1) (List.filter (fun e => e.2 == NodeKind.file) t))⟩
+              = (List.filter (fun e => e.2 == NodeKind.file) t).map fun e => keyOfNames e.1 := by
+            simp [keys, List.map_map, Function.comp]
+          rw [this]
+          exact keysOK_of_listing hwf List.filter_sublist
+            (fun e he => by simpa using (List.mem_filter.1 he).2) (by simp)
+        · intro hk; simp at hk
+  | image =>
+    simp only [listImages] at h
+    split at h
+    · simp at h
+    · rename_i ks hks
+      split at hks
+      · simp at hks
+      · rename_i hany
+        injection hks with hks
+        injection h with h
+        subst h; subst hks
+        have hcells : ∀ e ∈ (List.map (fun k => (k, Cell.notLoaded))
+            (List.map (fun e => keyOfNames e.1) (List.filter (fun e => e.1.length == 1) t))),
+            e.2 = Cell.notLoaded := by
+          intro e he
+          obtain ⟨k, _, rfl⟩ := List.mem_map.1 he
+          rfl
+        refine ⟨⟨?_, ?_⟩, hcells⟩
+        · have : keys ⟨Kind.image, List.map (fun k => (k, Cell.notLoaded))
+              (List.map (fun e => keyOfNames e.1) (List.filter (fun e => e.1.length == 1) t))⟩
+              = (List.filter (fun e => e.1.length == 1) t).map fun e => keyOfNames e.1 := by
+            simp [keys, List.map_map, Function.comp]
+          rw [this]
+          refine keysOK_of_listing hwf List.filter_sublist ?_ ?_
+          · intro e he
+            have hn : ¬ (List.filter (fun e => e.1.length == 1) t).any (fun e => e.2 != NodeKind.file) = true := hany
+            rw [List.any_eq_true] at hn
+            by_cases hf : e.2 = NodeKind.file
+            · exact hf
+            · exact absurd ⟨e, he, by simpa using hf⟩ hn
+          · intro _ e he
+            simpa using (List.mem_filter.1 he).2
+        · intro _ e he b hb
+          rw [hcells e he] at hb
+          simp at hb
+
+/-- the refusals of the two directory walks: a data tree holding a symbolic link anywhere, and an
+    images directory holding a sub-directory or a symbolic link at its top level, are not listed -/
+theorem listing_refusals (t : Listing) (e : List (List Char) × NodeKind) (he : e ∈ t) :
+    (e.2 = .symlink → ∃ err, newStore .data t = .error err) ∧
+    (e.1.length = 1 → e.2 ≠ .file → ∃ err, newStore .image t = .error err) := by
+  constructor
+  · intro hs
+    have : t.any (fun e => e.2 == NodeKind.symlink) = true :=
+      List.any_eq_true.2 ⟨e, he, by simp [hs]⟩
+    exact ⟨.io, by simp [newStore, listData, this]⟩
+  · intro hl hf
+    have : (t.filter fun e => e.1.length == 1).any (fun e => e.2 != NodeKind.file) = true :=
+      List.any_eq_true.2 ⟨e, List.mem_filter.2 ⟨he, by simp [hl]⟩, by simpa using hf⟩
+    exact ⟨.subdir, by simp [newStore, listImages, this]⟩
 
 /-! ## laziness -/
 
@@ -378,10 +465,6 @@ theorem store_accepts_trailing_separator_counterexample :
 
 /-! ## OPEN (stated, not proved — not counted as obligations)
 
-* `newStore_inv`: for a well-formed listing `t` (entry names are non-empty, contain no `/`, are not
-  `.`/`..`; paths distinct; every proper prefix of an entry is a `dir` entry),
-  `newStore kind t = .ok s → Inv s`.  Needs `parse (keyOfNames ns) = ⟨false, ns.map .normal⟩`.
-  The correspondence checks the listing itself (keys after `LOAD`) on generated trees.
 * `iter` is independent of the map order (each `get` touches only its own cell).
 -/
 
@@ -409,6 +492,35 @@ example :
     let d2 : Disk := fun _ => none
     let st := run ⟨(get s d1 ['a']).1, d1⟩ [.setDisk d2, .iter, .get ['b']]
     (get st.store st.disk ['a']).2 = some (.ok [1]) ∧ (get st.store st.disk ['b']).2 = some (.error .io) := by decide
+-- `newStore_inv` is not vacuous: a tree `a/` (directory) with the file `a/b` is well formed and listed
+example : ListingWF [([['a']], NodeKind.dir), ([['a'], ['b']], NodeKind.file)] := by
+  refine ⟨?_, by decide, ?_⟩
+  · intro e he
+    simp only [List.mem_cons, List.not_mem_nil, or_false] at he
+    rcases he with rfl | rfl <;> refine ⟨by simp, ?_⟩ <;> intro n hn <;> simp at hn
+    · subst hn; refine ⟨by simp, by simp, by simp, by simp⟩
+    · rcases hn with rfl | rfl <;> refine ⟨by simp, by simp, by simp, by simp⟩
+  · intro e he q hq hne hnn
+    simp only [List.mem_cons, List.not_mem_nil, or_false] at he
+    rcases he with rfl | rfl
+    · cases q with
+      | nil => exact absurd rfl hnn
+      | cons x r =>
+        simp only [List.cons_prefix_cons, List.prefix_nil] at hq
+        exact absurd (by rw [hq.1, hq.2]) hne
+    · cases q with
+      | nil => exact absurd rfl hnn
+      | cons x r =>
+        simp only [List.cons_prefix_cons] at hq
+        cases r with
+        | nil => simp [hq.1]
+        | cons y r' =>
+          simp only [List.cons_prefix_cons, List.prefix_nil] at hq
+          exact absurd (by rw [hq.1, hq.2.1, hq.2.2]) hne
+example : (newStore .data [([['a']], NodeKind.dir), ([['a'], ['b']], NodeKind.file)]) =
+    .ok ⟨.data, [(['a', '/', 'b'], .notLoaded)]⟩ := by decide
+example : ∃ e, newStore .image [([['a']], NodeKind.dir), ([['a'], ['b']], NodeKind.file)] = .error e :=
+  ⟨.subdir, by decide⟩
 -- an error entry refuses the save; a clean store reaches the effects
 example : (saveStores ⟨.data, [(['a'], .notLoaded)]⟩ ⟨.image, []⟩ (fun _ => none) (fun _ => none)).2
     = .refused ['a'] := by decide
